@@ -331,7 +331,7 @@ pub fn mixed_size_case(prefix: &usize, as_array: &bool, specs: &[(u8, usize, u8)
 
 pub fn run(ctx: &mut Ctx) {
 	if ctx.wants("L_laws_on_triples") {
-		let n = ctx.pick(100_000, 1_500_000);
+		let n = ctx.pick(250_000, 1_500_000);
 		let fam = Fam::new("L_laws_on_triples", "proptest: a random value and near-copies of it (one leaf, one key, one position or one duplicate changed) arranged as a triple: == must coincide with equality of the reference trees; reflexive, antisymmetric, transitive, cmp == Equal <=> ==, partial_cmp == Some(cmp), operators agree, equal => identical DefaultHasher hash and identical byte stream fed to a recording Hasher; non-trivial = two equal members and one different", false);
 		let fam = run_proptest(
 			ctx,
